@@ -715,6 +715,12 @@ func c34SingleWriter(c *core.Ctx) {
 				}
 				if core.CallIs(cc, h2aPkg+".Framer.WriteData", h2aPkg+".Framer.WriteDataPadded") {
 					ok := name == "writeData.writeFrame" || name == "Framer.WriteData"
+					// a DATA frame with a nil payload carries no octets: it consumes no flow-control window
+					if !ok && len(cc.Args) >= 4 {
+						if k, isK := cc.Args[3].(*ssa.Const); isK && k.Value == nil {
+							ok = true
+						}
+					}
 					if core.FuncPkgRel(fn) != h2aPkg {
 						return // other packages have their own framers of other connections
 					}
